@@ -19,6 +19,9 @@ pub const ASSUMPTIONS: &[&str] = &[
     "fault transitions: an EDIT always advances the modification time; a time stamp only goes backwards while the content is the one the context has already seen (the engine reloads on an advancing time stamp - C11's anchor)",
 ];
 
+const COMPANION_LIST: &str = "{\"abc\":\"kkk\",\"smile\":\"hasi\",\"a\":\"o\",\"abe\":\"obe\",\"cool\":\"thanda\"}";
+const COMPANION_STORE: &str = "{\"onno\":\"\u{0985}\u{09A8}\u{09CD}\u{09AF}\",\"sesh\":\"\u{09B6}\u{09C7}\u{09B7}\",\"a\":\"\u{0986}\u{0983}\",\"smile\":\"\u{09B8}\u{09CD}\u{09AE}\u{09BE}\u{0987}\u{09B2}\"}";
+
 #[derive(Clone, Debug, PartialEq, Eq, Hash)]
 pub enum Fault {
     Selection(Vec<u8>),
@@ -234,12 +237,30 @@ pub fn check_fault(f: &Fault, with_data: bool, st: &mut Stats) -> Result<(), Fai
             }
         }
     }
+    // the OTHER user file is healthy and in use (every second fault state, decided by the content): a damaged store
+    // next to a good auto-correct list and the other way round - "treated as if the file were absent" is about the
+    // damaged file only; the reference run gets the same healthy companion
+    let companion: Option<(bool, &str)> = match f {
+        Fault::Selection(b) if hash_of(b) % 2 == 0 => Some((true, COMPANION_LIST)),
+        Fault::Autocorrect(b) if hash_of(b) % 2 == 0 => Some((false, COMPANION_STORE)),
+        _ => None,
+    };
+    let place = |dir: &Sandbox| {
+        if let Some((is_list, content)) = companion {
+            std::fs::write(if is_list { dir.autocorrect_file() } else { dir.selection_file() }, content).expect("companion file");
+        }
+    };
+    place(&sb);
+    if companion.is_some() {
+        st.label("healthy-companion-file-next-to-the-damaged-one");
+    }
     let words = words_for(f);
     let class = if matches!(f, Fault::Dir(_)) { "directory-fault" } else if unreadable { "unreadable-file" } else { "odd-content" };
     let (got, before_restart) = follow_up(opts, sb.base(), &words).map_err(|b| Failure::new(format!("{class}:{}", b.kind), format!("{}: {}", b.what, b.detail), desc.clone()))?;
     if unreadable || matches!(f, Fault::Dir(_)) {
         // differential: the same history in a healthy user directory without the file
         let clean = Sandbox::new();
+        place(&clean);
         let (want, _) = follow_up(opts, clean.base(), &words).map_err(|b| Failure::new(b.kind, format!("reference run: {}: {}", b.what, b.detail), desc.clone()))?;
         // unreadable content: everything equals the run with the file absent; failed save: everything up
         // to the restart (the choices are still in memory) - after it the lost choices may show
